@@ -364,8 +364,8 @@ func session(c *vm.Ctx, r *vm.Rand, si int, sess *sessionServer) {
 			`[{"name":"textures","value":"` + strings.Repeat("QUJD", 600) + `","signature":"` + strings.Repeat("U0lH", 171) + `"},{"name":"second","value":""}]`,
 		}[x.Intn(3)]
 	}
-	// one session per shard and sixty carries a bundle as large as the library's reader takes (4095 packets; the protocol's
-	// limit is 4096, which the library refuses - see VERIF_PENDING below)
+	// one session per shard and sixty carries a bundle of thousands of packets, up to the protocol's limit of 4096 (which
+	// the library once refused by one; fixed, see known_findings.json)
 	bigBundle := si%60 == 17 && !nearMax
 	if bigBundle {
 		chkKind, accept = "monitor", true
@@ -492,11 +492,11 @@ func session(c *vm.Ctx, r *vm.Rand, si int, sess *sessionServer) {
 	bigBundleSize := 0
 	if bigBundle {
 		bigBundleSize = 1000 + x.Intn(3000)
-		if (c.Shard+si/60)%2 == 0 {
+		switch (c.Shard + si/60) % 3 {
+		case 0:
 			bigBundleSize = 4095
-		}
-		if os.Getenv("VERIF_PENDING") != "" {
-			bigBundleSize = 4096 // what the protocol allows (BundlerInfo.BUNDLE_SIZE_LIMIT); the library's reader gives up at the 4096th packet
+		case 1:
+			bigBundleSize = 4096 // what the protocol allows (BundlerInfo.BUNDLE_SIZE_LIMIT)
 		}
 		group++
 		s2c = append(s2c, step{kind: "bundle-open", inGroup: group})
